@@ -4,8 +4,10 @@ package main
 
 import (
 	"fmt"
+	"go/ast"
 	"go/constant"
 	"go/types"
+	"regexp"
 	"strconv"
 	"strings"
 )
@@ -201,6 +203,15 @@ func (ex *Exec) sp(e SExpr, env *SpecEnv) Term {
 			// prelude constant
 			if s, ok := ex.preludeConsts[x.Name]; ok {
 				return Term{x.Name, s}
+			}
+		}
+		if env.useVars && ex.guessLoop != nil {
+			if nn := ex.guessRenamed(x.Name); nn != "" {
+				if v, ok := ex.names[nn]; ok {
+					if _, ok := ex.st.vars[v]; ok || ex.boxed[v] {
+						return ex.readVar(v)
+					}
+				}
 			}
 		}
 		sfail("unknown identifier %q", x.Name)
@@ -608,4 +619,61 @@ func (ex *Exec) isParamVar(v *types.Var) bool {
 		}
 	}
 	return false
+}
+
+// guessRenamed: an identifier of a loop invariant that no longer exists in the code. If the loop assigns exactly one local
+// that the contract of the function never mentions, the identifier was that local's old name (a renamed accumulator). The
+// guess is recorded: obligations of a function bound with a guess are undecided when they fail, never violations.
+func (ex *Exec) guessRenamed(name string) string {
+	if ex.loopRename != nil {
+		if nn, ok := ex.loopRename["guess:"+name]; ok {
+			return nn
+		}
+	}
+	mentioned := map[string]bool{}
+	if c := ex.F.Contract; c != nil {
+		var texts []string
+		for _, cl := range c.Clauses {
+			texts = append(texts, cl.Text)
+		}
+		for _, l := range c.Loops {
+			texts = append(texts, l.Header)
+			for _, cl := range l.Inv {
+				texts = append(texts, cl.Text)
+			}
+		}
+		for _, t := range texts {
+			for _, w := range regexp.MustCompile(`[A-Za-z_][A-Za-z0-9_]*`).FindAllString(t, -1) {
+				mentioned[w] = true
+			}
+		}
+	}
+	cands := map[string]bool{}
+	ast.Inspect(ex.guessLoop, func(nd ast.Node) bool {
+		if as, ok := nd.(*ast.AssignStmt); ok {
+			for _, l := range as.Lhs {
+				if id, ok := l.(*ast.Ident); ok && id.Name != "_" && !mentioned[id.Name] {
+					if v, ok := ex.names[id.Name]; ok && v.Pos() < ex.guessLoop.Pos() {
+						cands[id.Name] = true // declared before the loop, assigned inside it
+					}
+				}
+			}
+		}
+		return true
+	})
+	if len(cands) != 1 {
+		return ""
+	}
+	for nn := range cands {
+		if ex.loopRename == nil {
+			ex.loopRename = map[string]string{}
+		}
+		ex.loopRename["guess:"+name] = nn
+		if ex.P.ApproxBind == nil {
+			ex.P.ApproxBind = map[string][]string{}
+		}
+		ex.P.ApproxBind[ex.F.Name] = append(ex.P.ApproxBind[ex.F.Name], fmt.Sprintf("%s: identifier %q of the contract read as the local %q", ex.F.Name, name, nn))
+		return nn
+	}
+	return ""
 }
